@@ -130,6 +130,7 @@ type hsServer struct {
 	RejectStatus int
 	RejectBare   bool // the rejection carries a status only: no reason, no header
 	RejectClose  bool // the rejection's header says "Connection: close" (the body still belongs to the response)
+	RejectBig    bool // the rejection's reason (the response body) is longer than 64 KiB
 	BeforeHeader string
 	RBuf, WBuf   int
 	Trailing     []byte
@@ -284,6 +285,7 @@ func drawHS(r *eng.Run) (hsClient, hsServer) {
 		s.RejectStatus = []int{0, 400, 401, 403, 500, 503}[r.T.Int(sim.LFault, 6)]
 		s.RejectBare = s.RejectStatus != 0 && r.T.Chance(sim.LFault, 1, 3)
 		s.RejectClose = s.RejectStatus != 0 && !s.RejectBare && r.T.Chance(sim.LFault, 1, 3)
+		s.RejectBig = s.RejectStatus != 0 && !s.RejectBare && r.T.Chance(sim.LFault, 1, 6)
 	}
 	s.HdrForm = []int{0, 0, 1, 2}[r.T.Int(sim.LCfg, 4)]
 	if s.Kind != 1 && r.T.Chance(sim.LCfg, 1, 8) {
@@ -438,7 +440,11 @@ func (s hsServer) rejectErr() error {
 	if s.RejectClose {
 		hdr += "Connection: close\r\n"
 	}
-	return ws.RejectConnectionError(ws.RejectionStatus(s.RejectStatus), ws.RejectionReason("sim: rejected with status"),
+	reason := "sim: rejected with status"
+	if s.RejectBig {
+		reason = strings.Repeat("sim: rejected, and here is why. ", 2200) // 70400 bytes
+	}
+	return ws.RejectConnectionError(ws.RejectionStatus(s.RejectStatus), ws.RejectionReason(reason),
 		ws.RejectionHeader(ws.HandshakeHeaderString(hdr)))
 }
 
@@ -914,6 +920,11 @@ func manyHeaders(prefix string) http.Header {
 	for i, n := range []string{"Alpha", "Bravo", "Charlie", "Delta", "Echo", "Foxtrot", "Golf", "Hotel"} {
 		h.Set(prefix+n, strings.Repeat(string(rune('a'+i)), 3+i))
 	}
+	// A value an application took over from elsewhere with an obsolete line
+	// fold (or a stray line end) in it: net/http writes such values on one
+	// line, so must whoever writes an http.Header.
+	h.Set(prefix+"Folded", "part one\r\n part two")
+	h.Add(prefix+"Golf", "second value\n")
 	return h
 }
 
